@@ -67,8 +67,9 @@ def run(ctx):
     ctx.validate("Injector", ts, "sessions: one injector object, alternating ndarray / DataFrame calls", sabotage=D.sabotage,
                  replay=lambda i: {"mode": "session", "kind": ts[i]["kind"], "seed": ts[i]["seed"]}, nontrivial=lambda t: True)
     # class frequencies of the resampling injector, aggregated over many calls
-    t3 = [D.freq_trace(rng, frame, 60 if q else 400, rng.randrange(10 ** 6)) for frame in (False, True) for _ in range(2 if q else 6)]
-    ctx.validate("Injector", t3, "aggregate class frequencies of LabelProbabilityInjector", replay=lambda i: {"mode": "freq", "frame": t3[i]["frame"], "reps": t3[i]["reps"], "seed": t3[i]["seed"]},
+    t3 = [D.freq_trace(rng, frame, 60 if q else 400, rng.randrange(10 ** 6), dirichlet=dz) for frame in (False, True) for dz in (False, True) for _ in range(2 if q else 6)]
+    ctx.validate("Injector", t3, "aggregate class frequencies of LabelProbabilityInjector / LabelDirichletInjector (concentrated alpha)",
+                 replay=lambda i: {"mode": "freq", "frame": t3[i]["frame"], "reps": t3[i]["reps"], "seed": t3[i]["seed"], "dirichlet": t3[i]["dirichlet"]},
                  nontrivial=lambda t: True)
     ctx.assumptions += ["numeric data sets; class frequencies are judged with a 6-sigma binomial bound over the aggregate of many calls"]
     return ctx.finish()
@@ -85,5 +86,5 @@ def replay(ctx, bundle):
         e = D.call(rng, kind, n_, nc, frame, tuple(w) if w else None, seed)
         ctx.validate("Injector", [{"cfg": {}, "ev": [e]}], "replay", replay=lambda i: r)
     else:
-        ctx.validate("Injector", [D.freq_trace(rng, r["frame"], r["reps"], r["seed"])], "replay", replay=lambda i: r)
+        ctx.validate("Injector", [D.freq_trace(rng, r["frame"], r["reps"], r["seed"], r.get("dirichlet", False))], "replay", replay=lambda i: r)
     return ctx.finish()
